@@ -57,6 +57,15 @@ def Chain(x: int, log: str) -> int:
     return b.out
 
 
+@workflow.define(outputs={"out": int, "other": int})
+def Outer(x: int, log: str):
+    """a workflow as a node: w = Chain(x) shares its identity (and those of its nodes) with the
+    stand-alone Chain(x); c = Dbl(x) sits directly in the outer workflow"""
+    w = workflow.add(Chain(x=x, log=log), name="w")
+    c = workflow.add(Dbl(x=x, log=log), name="c")
+    return w.out, c.out
+
+
 # --------------------------------------------------------------------------- C13
 @python.define
 def RaiseIf(flag: str, log: str, token: str) -> int:
@@ -108,14 +117,17 @@ def NoneForTwo(flag: str, log: str, token: str):
 
 @shell.define
 class ShFail(shell.Task["ShFail.Outputs"]):
-    """sh <script> <flag> <log> <token>; the script appends 'run' to the log, then exits 3 with
-    'boom-<token>' on stderr when the flag file says fail"""
+    """sh <script> <flag> <log> <token> <how>; the script appends 'run' to the log and, when the
+    flag file says fail, writes 'boom-<token>' to stderr and then fails the way `how` says:
+    'exit:<n>' = exit status n, 'signal:<n>' = the shell kills itself with signal n (the command
+    is then reported with a negative return code)"""
 
     executable = "sh"
     script: str = shell.arg(argstr="", position=1, help="script file")
     flag: str = shell.arg(argstr="", position=2, help="flag file")
     log: str = shell.arg(argstr="", position=3, help="log file")
     token: str = shell.arg(argstr="", position=4, help="token")
+    how: str = shell.arg(argstr="", position=5, help="exit:<n> | signal:<n>", default="exit:3")
 
     class Outputs(shell.Outputs):
         pass
@@ -125,7 +137,10 @@ SH_SCRIPT = """#!/bin/sh
 echo run >> "$2"
 if grep -q fail "$1"; then
   echo "boom-$3" >&2
-  exit 3
+  case "$4" in
+    signal:*) kill -"${4#signal:}" $$; sleep 1; exit 99;;
+    *) exit "${4#exit:}";;
+  esac
 fi
 echo fine
 """
@@ -262,6 +277,69 @@ class ShAppendAny(shell.Task["ShAppendAny.Outputs"]):
     class Outputs(shell.Outputs):
         pass
 
+
+# two file fields on one task (copy modes any+copy in either declaration order, or copy+copy):
+# the body works on the file it received through field number w (0 = a, 1 = b)
+def _two(a, b, w, prog, log):
+    append_line(log, "run")
+    apply_prog((a, b)[w], prog)
+    return [os.fspath(a), os.fspath(b)]
+
+
+@python.define(inputs={"a": python.arg(type=File), "b": python.arg(type=File, copy_mode="copy")})
+def TwoAnyCopy(a, b, w: int, prog: list, log: str) -> list:
+    return _two(a, b, w, prog, log)
+
+
+@python.define(inputs={"a": python.arg(type=File, copy_mode="copy"), "b": python.arg(type=File)})
+def TwoCopyAny(a, b, w: int, prog: list, log: str) -> list:
+    return _two(a, b, w, prog, log)
+
+
+@python.define(inputs={"a": python.arg(type=File, copy_mode="copy"),
+                       "b": python.arg(type=File, copy_mode="copy")})
+def TwoCopyCopy(a, b, w: int, prog: list, log: str) -> list:
+    return _two(a, b, w, prog, log)
+
+
+@shell.define
+class ShTwoAnyCopy(shell.Task["ShTwoAnyCopy.Outputs"]):
+    """sh <script> <a> <b> <w> <log>: the script appends to (or reads) the file given as a (w=0)
+    or b (w=1)"""
+
+    executable = "sh"
+    script: str = shell.arg(argstr="", position=1, help="script file")
+    a: File = shell.arg(argstr="", position=2, help="first file")
+    b: File = shell.arg(argstr="", position=3, help="second file", copy_mode="copy")
+    w: str = shell.arg(argstr="", position=4, help="0 | 1")
+    log: str = shell.arg(argstr="", position=5, help="log")
+
+    class Outputs(shell.Outputs):
+        pass
+
+
+@shell.define
+class ShTwoCopyAny(shell.Task["ShTwoCopyAny.Outputs"]):
+    executable = "sh"
+    script: str = shell.arg(argstr="", position=1, help="script file")
+    a: File = shell.arg(argstr="", position=2, help="first file", copy_mode="copy")
+    b: File = shell.arg(argstr="", position=3, help="second file")
+    w: str = shell.arg(argstr="", position=4, help="0 | 1")
+    log: str = shell.arg(argstr="", position=5, help="log")
+
+    class Outputs(shell.Outputs):
+        pass
+
+
+SH_TWO_APPEND = """#!/bin/sh
+echo run >> "$4"
+if [ "$3" = 0 ]; then printf 'ZZ' >> "$1"; else printf 'ZZ' >> "$2"; fi
+"""
+
+SH_TWO_READ = """#!/bin/sh
+echo run >> "$4"
+cat "$1" "$2" > /dev/null
+"""
 
 SH_APPEND = """#!/bin/sh
 echo run >> "$2"
